@@ -153,3 +153,83 @@ fn visible_chars_opt(nodes: &[DNode], alt_without_src: bool) -> Vec<char> {
     }
     out
 }
+
+/// The recorded class `zero_width_column_under_colspan`, decided on the document: some table has a
+/// cell with colspan > 1 that covers a column which gets no width - either because every share of
+/// that column's cells is zero (all its single cells empty and every spanning cell's text shorter
+/// than its span), or because the table has to be squeezed (its natural width exceeds `width`)
+/// and the column has no single-column cell with text to keep it alive.
+pub fn colspan_zero_class(nodes: &[DNode], width: usize) -> bool {
+    fn text_cols(n: &DNode) -> usize {
+        // rough size estimate of a cell: display columns of its text with white space collapsed
+        let mut t = String::new();
+        fn all(n: &DNode, o: &mut String) {
+            match n {
+                DNode::Text(x) => o.push_str(x),
+                DNode::El { html: true, name, .. } if name == "img" => o.push_str(n.attr("alt").unwrap_or("")),
+                DNode::El { kids, .. } => {
+                    o.push(' ');
+                    kids.iter().for_each(|k| all(k, o));
+                    o.push(' ');
+                }
+                _ => {}
+            }
+        }
+        all(n, &mut t);
+        let words: Vec<&str> = t.split_whitespace().collect();
+        if words.is_empty() {
+            return 0;
+        }
+        words.iter().map(|w| w.chars().map(|c| unicode_width::UnicodeWidthChar::width(c).unwrap_or(0)).sum::<usize>()).sum::<usize>() + words.len() - 1
+    }
+    let mut hit = false;
+    walk(nodes, &mut |n, _| {
+        if !n.is("table") || hit {
+            return;
+        }
+        fn rows_of<'a>(n: &'a DNode, rows: &mut Vec<&'a DNode>) {
+            for x in n.kids() {
+                if x.is("tr") {
+                    rows.push(x);
+                } else if x.is("thead") || x.is("tbody") {
+                    rows_of(x, rows);
+                }
+            }
+        }
+        let mut trs = Vec::new();
+        rows_of(n, &mut trs);
+        // (start column, span, size) of every cell
+        let mut cells: Vec<(usize, usize, usize)> = Vec::new();
+        let mut ncols = 0usize;
+        for tr in &trs {
+            let mut c = 0usize;
+            for cell in tr.kids().iter().filter(|x| x.is("td") || x.is("th")) {
+                let span = cell.attr("colspan").and_then(|x| x.parse::<usize>().ok()).unwrap_or(1).max(1).min(1000);
+                cells.push((c, span, text_cols(cell)));
+                c += span;
+            }
+            ncols = ncols.max(c);
+        }
+        if ncols == 0 || ncols > 4000 || !cells.iter().any(|x| x.1 > 1) {
+            return;
+        }
+        let mut size = vec![0usize; ncols];
+        let mut single = vec![false; ncols];
+        for &(c0, span, sz) in &cells {
+            for c in c0..(c0 + span).min(ncols) {
+                size[c] = size[c].max(sz / span);
+            }
+            if span == 1 && sz > 0 {
+                single[c0] = true;
+            }
+        }
+        let under_span = |c: usize| cells.iter().any(|&(c0, span, _)| span > 1 && c0 <= c && c < c0 + span);
+        let a = (0..ncols).any(|c| size[c] == 0 && under_span(c));
+        let natural: usize = size.iter().sum::<usize>() + ncols - 1;
+        let b = natural > width && (0..ncols).any(|c| !single[c] && under_span(c));
+        if a || b {
+            hit = true;
+        }
+    });
+    hit
+}
